@@ -458,7 +458,9 @@ func genC04Line(t *rapid.T, c *c04Case, option bool) c04Line {
 	}
 	nt := rapid.SampledFrom([]int{0, 0, 0, 1, 2, 3}).Draw(t, "ntags")
 	for i := 0; i < nt; i++ {
-		l.Tags = append(l.Tags, rapid.SampledFrom([]string{"t", "tag2", "a:b", "é", "x-y", "k=v", "{b}", "a/b", "100%", "[m]", "\\e", "日本", "c,d", "-", ">>"}).Draw(t, "tag"))
+		l.Tags = append(l.Tags, rapid.SampledFrom([]string{"t", "tag2", "a:b", "é", "x-y", "k=v", "{b}", "a/b", "100%", "[m]", "\\e", "日本", "c,d", "-", ">>",
+			// blanks that are not the blank or the tab belong to the tag (the lexer keeps them)
+			"タグ\u3000", "\u00a0lead", "x\u2003", "a\u00a0b"}).Draw(t, "tag"))
 	}
 	if rapid.IntRange(0, 3).Draw(t, "comment") == 0 {
 		l.Comment = rapid.SampledFrom([]string{" a comment", "x", " <<if false>> #nottag {1}", " // again", " é"}).Draw(t, "ctext")
